@@ -67,7 +67,7 @@ def decode(code):
             b = ["just-before"]  # 1us before the alarm
         bodies.append({"b": b, "probe": probe})
     return {"P": P, "t0": T0[t0], "bodies": bodies, "free_at": free_at if free_at < len(bodies) else None, "free_how": ["free", "with", "free-twice"][free_how],
-            "enter_after": [None, 0, 35, 250][free_at % 4] if free_at % 3 == 0 else None}
+            "enter_after": [None, 0, 35, 250][free_at % 4] if free_at % 3 == 0 else None, "second": free_at % 2 == 0}
 
 
 class C16(Lab):
@@ -238,10 +238,40 @@ class C16(Lab):
                 if armed != t0 + (k + 1) * Pq:
                     raise Violation("C16/grid", f"after the {k}-th return the armed alarm is {armed}us, expected t0+{k + 1}*P = {t0 + (k + 1) * Pq}us (t0={t0}, P={Pq}); case: {case}")
             classes.add("P:pool" if P in PERIODS else "P:free")
+            if freed and case.get("second"):
+                # a new delay is created while the freed one is still referenced, then the old object goes away:
+                # the new one must keep its own notifier and its own grid
+                import gc
+
+                t1 = simenv.now_us()
+                d2 = NotifierDelay(P / 1e6)
+                try:
+                    delay = None
+                    gc.collect()
+                    classes.add("second-delay-after-free")
+                    armed = hs.getNextNotifierTimeout()
+                    if armed != t1 + Pq:
+                        raise Violation("C16/second-delay", f"second delay created at {t1}us after the first was freed and dropped: armed alarm {armed}us, expected {t1 + Pq}us; case: {case}")
+                    seen = self.gate.entries
+                    self.worker.q_in.put(d2)
+                    with self.gate.cv:
+                        dl = time.time() + 10
+                        while self.gate.entries == seen and time.time() < dl:
+                            self.gate.cv.wait(0.05)
+                    early = self.await_result(GRACE_S)
+                    if early is not None:
+                        raise Violation("C16/second-delay", f"wait() of the second delay returned at {early[1]!r}us before its alarm {t1 + Pq}us; case: {case}")
+                    simenv.advance(t1 + Pq - simenv.now_us())
+                    r = self.await_result(10.0)
+                    if r is None or r[0] != "ok" or r[1] != t1 + Pq:
+                        raise Violation("C16/second-delay", f"wait() of the second delay: {r!r}, expected return at {t1 + Pq}us; case: {case}")
+                finally:
+                    delay = d2
             return {"nontrivial": nontrivial, "classes": sorted(classes)}
         finally:
             try:
-                delay.free()
+                if delay is not None:
+                    delay.free()
             except Exception:
                 pass
             # drain a result that may still arrive after a violation
